@@ -4,6 +4,7 @@ import Urandom.Driver.Block
 import Urandom.Driver.Serde
 import Urandom.Driver.Fill
 import Urandom.Driver.ReadMock
+import Urandom.Driver.System
 open Urandom.Driver
 
 def answer (line : String) : String :=
@@ -29,6 +30,8 @@ def answer (line : String) : String :=
       | "fillb" => fillbRequest kv
       | "read" => readRequest kv
       | "mock" => mockRequest kv
+      | "system" => systemRequest kv
+      | "newgen" => newgenRequest kv
       | "slpblock" => slpblockRequest kv
       | "specblock" => specblockRequest kv
       | _ => none
